@@ -196,3 +196,10 @@ def f64_classes():
 
 def sig_pairs(dima, dimb):
     return list(itertools.product(signatures(dima), signatures(dimb)))
+
+
+def result_ok(cart, sig):
+    """All components finite and representable in `sig` (used when comparing code against code)."""
+    if any(mpmath.isnan(c) or mpmath.isinf(c) for c in cart):
+        return False
+    return representable(cart, sig, eps=mpf(10) ** -30)
